@@ -51,6 +51,7 @@ PINNED_REPAIRS = [
     (r':\s*NaN\b', ': null', "converted_nan"),
 ]
 STRAT_LETTERS = {"s": "STRICT", "e": "EXTRACTION", "l": "LENIENT", "r": "REPAIR"}
+CONV_SUFFIX = ["_str_to_int", "_str_to_float", "_num_to_str", "_str_to_bool", "_str_to_list"]
 OTHER_EXC = {"RecursionError": 1, "TypeError": 2, "ValueError": 3, "KeyError": 4, "AttributeError": 5,
              "IndexError": 6, "OverflowError": 7}
 WS = [0x9, 0xa, 0xb, 0xc, 0xd, 0x1c, 0x1d, 0x1e, 0x1f, 0x20, 0x85, 0xa0, 0x1680] + list(range(0x2000, 0x200b)) + \
@@ -79,6 +80,13 @@ class Recorder:
         self.pending = []        # env lines not yet handed over
         self.unknown = {}
         self.nondet = False
+        self.kids = {}           # dict keys / field names
+        self.vids = {}           # values inside the dicts handed to the coercion helper
+        self.prim_done = set()
+        self.dict_done = set()
+        self.ofd_done = set()
+        self.fields_for = None   # schema whose `env A` line is current
+        self.label_codes = {}
 
     # -- interning -------------------------------------------------------------------------------------
     def jid(self, v):
@@ -98,7 +106,93 @@ class Recorder:
         return self.sids.setdefault(k, len(self.sids))
 
     def cid(self, c):
-        return self.cids.setdefault(str(c), len(self.cids))
+        """a coercion label: `key * 8 + conversion` when it is <field><suffix> of the current schema"""
+        if c in self.label_codes:
+            return self.label_codes[c]
+        return 1000000 + self.cids.setdefault(str(c), len(self.cids))
+
+    def kid(self, k):
+        return self.kids.setdefault(k if isinstance(k, str) else "\x00" + repr(k), len(self.kids))
+
+    def vid(self, v):
+        try:
+            k = type(v).__name__ + ":" + repr(v)
+        except RecursionError:
+            k = "deep:" + type(v).__name__
+        return self.vids.setdefault(k, len(self.vids))
+
+    # -- the Python primitives the coercion helper is made of, evaluated here (not inside the code under test) ----
+    def describe_schema(self, S):
+        """`env A`: the fields of the schema with the class the helper's if/elif chain puts their annotation in"""
+        if self.fields_for is S:
+            return
+        self.fields_for = S
+        self.label_codes = {}
+        toks = []
+        for name, f in S.model_fields.items():
+            a = f.annotation
+            kind = ("i" if a == int else "f" if a == float else "s" if a == str else "b" if a == bool
+                    else "l" if (hasattr(a, "__origin__") and a.__origin__ == list) else "o")
+            toks.append(f"{self.kid(name)}:{kind}")
+            for code, suffix in enumerate(CONV_SUFFIX):
+                self.label_codes.setdefault(name + suffix, self.kid(name) * 8 + code)
+        self.pending.append(" ".join(["env A"] + toks))
+
+    def describe_value(self, v):
+        i = self.vid(v)
+        if i in self.prim_done:
+            return i
+        self.prim_done.add(i)
+        is_str, is_num = isinstance(v, str), isinstance(v, (int, float))
+        io = fo = bo = "x"
+        so = sp = i
+        if is_str:
+            try:
+                io = self.describe_value(int(v))
+            except ValueError:
+                pass
+            try:
+                fo = self.describe_value(float(v))
+            except ValueError:
+                pass
+            low = v.lower()
+            if low in ("true", "1", "yes"):
+                bo = self.describe_value(True)
+            elif low in ("false", "0", "no"):
+                bo = self.describe_value(False)
+            sp = self.describe_value([p.strip() for p in v.split(",")])
+        if is_num:
+            so = self.describe_value(str(v))
+        self.pending.append(f"env P {i} {int(is_str)} {int(is_num)} {io} {fo} {so} {bo} {sp}")
+        return i
+
+    def describe_data(self, data):
+        """`env D`: isinstance(data, list) / dict(data), with the primitives of every value"""
+        j = self.jid(data)
+        if j in self.dict_done:
+            return
+        self.dict_done.add(j)
+        if isinstance(data, list):
+            self.pending.append(f"env D {j} list")
+            return
+        try:
+            d = dict(data)
+        except Exception as e:
+            self.pending.append(f"env D {j} raise {self.exc_token(e)}")
+            return
+        items = [f"{self.kid(k)}:{self.describe_value(v)}" for k, v in d.items()]
+        self.pending.append(" ".join([f"env D {j} ok"] + items))
+
+    def describe_result(self, result):
+        """`env O`: the handle of a dict with these items (so that the model's own result can be named)"""
+        if not isinstance(result, dict):
+            return
+        j = self.jid(result)
+        items = tuple(f"{self.kid(k)}:{self.vid(v)}" for k, v in result.items())
+        if (j, items) in self.ofd_done:
+            return
+        self.ofd_done.add((j, items))
+        self.pending.append(" ".join([f"env O {j}"] + list(items)))
 
     def text(self, t) -> str:
         """token for a text argument: defines it (env T line) on first use, `@k` afterwards"""
@@ -436,7 +530,8 @@ class C11(Prop):
     quick_deadline_s = 100
     thorough_deadline_s = 800
     all_branches = ["hit", "fail", "hitx:s", "hitx:e", "hitx:l", "hitx:r", "failx", "err:json", "err:validation",
-                    "err:noValidJson", "err:noJson", "err:msg-jd", "err:msg-ve", "err:msg-other"]
+                    "err:noValidJson", "err:noJson", "err:msg-jd", "err:msg-ve", "err:msg-other",
+                    "conv:0", "conv:1", "conv:2", "conv:3", "conv:4", "conv:raise"]
     assumptions = [
         "json.loads, re.findall, re.sub, schema.model_validate and Chaperone._coerce_types_tracked are environment: "
         "arbitrary functions that return or raise (the theorems hold for every such environment); the harness "
@@ -476,12 +571,17 @@ class C11(Prop):
                 return orig(self_, data, schema, *a, **kw)
             j = REC.jid(data)
             try:
+                REC.describe_data(data)
+            except Exception:      # never let the description disturb the code under test
+                pass
+            try:
                 res = orig(self_, data, schema, *a, **kw)
             except Exception as e:
                 REC.add(("C", j), f"C {j}", "raise " + REC.exc_token(e))
                 raise
             try:
                 result, coercions = res
+                REC.describe_result(result)
                 line = " ".join(["ok", str(REC.jid(result))] + [str(REC.cid(c)) for c in coercions])
             except Exception:
                 line = "ok " + str(REC.unknown_index(("C", repr(res)[:200])))
@@ -533,6 +633,7 @@ class C11(Prop):
                 before = ch.get_statistics()
                 REC.top = S
                 REC.calls = []
+                REC.describe_schema(S)
                 REC.active = True
                 err = None
                 r = None
@@ -870,7 +971,17 @@ class C11(Prop):
                 edge_cases.append({"lines": [f"schema {spec}", "new none", f"foldx {hexs(raw)} {st}",
                                              f"fold {hexs(raw)} {st}", "stats"],
                                    "note": "deep nesting / scalar documents / literals"})
-        return [{"name": "deep nesting, scalar and null documents x single strategies", "cases": edge_cases},
+        spec2 = "i:int,f:float,s:str,b:bool,l:ls,o:oid,n:n{i:int}"
+        for raw in ['{"i": "4", "f": "1.5", "s": 7, "b": "yes", "l": "a, b", "n": {"i": 1}}',
+                    '{"i": " 12 ", "f": "nan", "s": 2.5, "b": "NO", "l": "", "o": "3", "n": {"i": "5"}}',
+                    '{"i": "4x", "f": "abc", "s": true, "b": "maybe", "l": "x", "n": {"i": 1}}',
+                    'so: {"i": "1_0", "f": "1e3", "s": "kept", "b": "1", "l": ["a"], "n": {"i": 1}} ok',
+                    '[{"i": "4"}]', '{"i": 4, "f": 1, "s": "x", "b": false, "l": [], "n": {"i": 1}, "zz": "9"}']:
+            for st in ["l", "none", "le"]:
+                edge_cases.append({"lines": [f"schema {spec2}", "new none", f"foldx {hexs(raw)} {st}",
+                                             f"fold {hexs(raw)} {st}", "stats"],
+                                   "note": "every entry of the coercion table, applicable and not"})
+        return [{"name": "deep nesting, scalar and null documents, coercion table x single strategies", "cases": edge_cases},
                 {"name": "all 66 strategy lists (None, [], every ordered subset) x representative raw texts", "cases": cases},
                 {"name": "every str.isspace code point and its neighbours around clean JSON", "cases": ws_cases},
                 {"name": "constructor strategies x call strategies (`or` glue)", "cases": ctor_cases}]
